@@ -91,6 +91,18 @@ CHECKS = {
          "Float lemma: single-segment quarter map, ftp=0, q in the listed set (thorough 1..960). Models: interp1d, defaultdict, np, real-dict workaround.",
     technique="AST->SMT float kernel proof (z3 reals + binary64) and symbolic execution of real code (CrossHair/z3)",
     ref="DESIGN.md §2 C04"),
+ "C07": dict(
+    text="Engine C: the compiled patterns and output templates of the live match-line classes (v1: note, snote, section, stime, ptime, pedals; "
+         "v0: snote, note for every version, pedals) are converted to z3 regular expressions; regex-only emptiness queries decide that every "
+         "formatted line is found by its pattern, every field language lies inside its capture group and the following separator cannot occur "
+         "in the field; solver-generated members of each line language are parsed, re-formatted and re-parsed by the real classes (kind, fields, "
+         "fixpoint). Engine A (CrossHair): fractional durations (string round trip, exact addition within the 1024 bound), key signatures in the "
+         "three historical spellings, time signatures, upgrade of v0 insertion/pedal lines to 1.0.0.",
+    note="Field languages are stated per formatter (bounded digit counts, identifiers without separators, <=3 additive components, <=4 list items); "
+         "info/scoreprop/meta free-text values are outside engine C. Numbers rendered with str.format are enumerated by the solver in small ranges. "
+         "Capture exactness rests on a sufficient separator condition, not on a full ambiguity decision.",
+    technique="regex inclusion/emptiness in z3 + symbolic execution of real code (CrossHair/z3)",
+    ref="DESIGN.md §2 C07"),
 }
 NOT_APPLICABLE = {
  "C18": "float32/transcendental codec chain (log2, 2**x, mean/std, symbolic/symbolic division) over ~600 lines of vectorised numpy: non-linear with transcendental terms, z3 answers unknown; no sound bounded encoding within reach (DESIGN.md §2 C18)",
